@@ -55,9 +55,9 @@ func main() {
 		return
 	}
 	h.corpus(f.Corpus)
-	h.buildCases(r.Fork(), f.N(40, 2500))
-	h.reuseCases(r.Fork(), f.N(60, 3000))
-	h.e2eCases(r.Fork(), f.N(4, 120))
+	h.buildCases(r.Fork(), f.N(40, 500))
+	h.reuseCases(r.Fork(), f.N(60, 1500))
+	h.e2eCases(r.Fork(), f.N(4, 40))
 }
 
 // ---------------------------------------------------------------- replay / corpus
